@@ -50,14 +50,15 @@ theorem secVncAuth_ne_secNone : secVncAuth ≠ secNone := by decide
 
 /-- identity, screen, direction and the peer's half of the socket are never changed by the server -/
 def Same (c c' : Conn) : Prop :=
-  c'.id = c.id ∧ c'.screen = c.screen ∧ c'.reverse = c.reverse ∧ c'.peerClosed = c.peerClosed
+  c'.id = c.id ∧ c'.screen = c.screen ∧ c'.reverse = c.reverse ∧ c'.peerClosed = c.peerClosed ∧
+  c'.origin = c.origin
 
-theorem Same.rfl' (c : Conn) : Same c c := ⟨rfl, rfl, rfl, rfl⟩
+theorem Same.rfl' (c : Conn) : Same c c := ⟨rfl, rfl, rfl, rfl, rfl⟩
 
 theorem Same.trans {a b c : Conn} (h1 : Same a b) (h2 : Same b c) : Same a c := by
-  obtain ⟨a1, a2, a3, a4⟩ := h1
-  obtain ⟨b1, b2, b3, b4⟩ := h2
-  exact ⟨b1.trans a1, b2.trans a2, b3.trans a3, b4.trans a4⟩
+  obtain ⟨a1, a2, a3, a4, a5⟩ := h1
+  obtain ⟨b1, b2, b3, b4, b5⟩ := h2
+  exact ⟨b1.trans a1, b2.trans a2, b3.trans a3, b4.trans a4, b5.trans a5⟩
 
 theorem sendString_same (c : Conn) (s : List UInt8) : Same c (sendString c s) := by
   unfold sendString
